@@ -160,6 +160,17 @@ class History:
                 else:
                     self.E = self.delivered_unspent()
                     self.sync = True
+            elif op == 'fund_pair':
+                # one funding transaction with two outputs for this wallet (a payment plus its change look the same)
+                cands = sorted(x for x in self.known if self.addr_acc.get(x, 0) == 0)
+                v = 10 ** 7 * scale
+                first = CH.fund(rnd.choice(cands), v + rnd.randrange(1000), network, confirmed=True)
+                CH.fund(rnd.choice(cands), v + 5000 + rnd.randrange(1000), network, confirmed=True, same_tx_as=first)
+                CH.mine(1)
+                for a_ in self.accounts:
+                    w.utxos_update(account_id=a_)
+                self.E = self.delivered_unspent()
+                self.sync = True
             elif op == 'utxo_add':
                 a = rnd.choice(sorted(x for x in self.known if self.addr_acc.get(x, 0) == 0))
                 v = 10 ** 6 * scale + rnd.randrange(1000)
@@ -288,6 +299,8 @@ class History:
             return
         addr, script = wallet_env.external_address(rnd, network)
         min_confirms = rnd.choice([0, 0, 1])
+        if self.case.get('force_minconf') is not None:
+            min_confirms = self.case['force_minconf']
         broadcast = op in ('send', 'send_fail', 'sweep')
         if op == 'send_fail':
             CH.faults['send'] = 'fail'
@@ -586,6 +599,13 @@ def run_shard(spec, col):
             case['wt'] = 'legacy'
             case['uncompressed'] = True     # wallet around an old-style uncompressed WIF key
         run_history(case, col)
+    # dedicated class per shard: two outputs of one funding transaction are spent by two different sent transactions, then
+    # one of them is deleted (only the outpoint it consumed may come back)
+    kind = ['hd', 'single', 'multisig', 'hd'][spec['shard'] % 4]
+    case = {'wseed': '%d-%d-pair' % (spec['seed'], spec['shard']), 'kind': kind, 'wt': rnd.choice(['legacy', 'p2sh-segwit', 'segwit']),
+            'network': rnd.choice(['bitcoinlib_test', 'bitcoin', 'testnet', 'litecoin']), 'n_ops': 8, 'force_minconf': 1,
+            'ops': ['fund_pair', 'send', 'send', 'delete', 'update', 'reopen', 'send', 'delete']}
+    run_history(case, col)
     if spec['shard'] == 0:
         run_cross_account_scenario(col, spec)
     st = col.extra.get('abstract_states')
